@@ -13,7 +13,8 @@ COPY_SUBSTR = ["as core::convert::From<&[T]>>::from", "as core::convert::From<&[
 # copies that exist by design: (callee, owner function) -> reason
 ALLOWED_COPIES = {
     ("alloc::slice::<impl [T]>::to_vec", "tls_extensions::parse_tls_extension_psk_key_exchange_modes_content"): "PSK modes are returned as Vec<u8> by design (property statement)",
-    ("alloc::vec::Vec::<T, A>::extend_from_slice", "tls_records_parser::TlsRecordsParser::parse_record"): "the defragmenter buffers fragments (only defragmented results borrow the internal buffer)",
+    # any method of the defragmenter (parse_record or a private helper of it): when it may copy is decided by DEFRAG-NOCOPY
+    ("alloc::vec::Vec::<T, A>::extend_from_slice", "tls_records_parser::TlsRecordsParser::*"): "the defragmenter buffers fragments (only defragmented results borrow the internal buffer)",
 }
 # owned byte containers in result types that exist by design: (adt, field) -> reason
 ALLOWED_OWNED = {
@@ -132,6 +133,8 @@ def run(tier, repo):
                 if c.get("mx") and "vec" == c.get("mx"):
                     continue
                 k = (cal, base_owner)
+                if k not in ALLOWED_COPIES and base_owner.startswith("tls_records_parser::TlsRecordsParser::"):
+                    k = (cal, "tls_records_parser::TlsRecordsParser::*")
                 if k in ALLOWED_COPIES:
                     seen_allowed.add(k)
                     rp.ok("WHO-MAY-COPY", short_site(c, owner), "%s in %s" % (cal.split("::")[-1], base_owner.split("::")[-1]), "allowed: " + ALLOWED_COPIES[k])
